@@ -160,6 +160,19 @@ CHECKS = {
               "instantiated by decltype (a path whose body would not compile cannot write either). Element type int, raw pointers."),
         technique="exhaustive compile-time witnesses (SFINAE detection + compile-fail TUs) over generated access paths",
     ),
+    "C20": dict(
+        engine="mfacts", category="other",
+        text=("(1) On the CFG of the assertion-enabled unoptimised IR, in every element-access / slicing primitive (operator[], at_aux_, sliced_aux_ D>1, "
+              "taked_aux_, dropped_aux_, partitioned_aux_, chunked_aux_, elements_at; D=1..3) every variable-index arithmetic on the element pointer and "
+              "every return is dominated by the passing edge of an assertion whose condition depends on a non-this parameter (own or delegated). "
+              "(2) Every assignment-through-view path that reaches element assignment has passed an extents comparison of its operands whose failing "
+              "sibling path ends in the assertion handler before any element write. (3) For each of ~70 owning-array / view operations per D the "
+              "abstract event traces of the normal paths are identical with assertions enabled, with -DNDEBUG and with -DBOOST_MULTI_ASSERT_DISABLE "
+              "(assertion conditions have no observable effect). (4) No NDEBUG-conditional code in the core headers. (5) Polynomial evaluation of "
+              "assertion-enabled -O2 IR: in-domain symbolic accesses reach no handler and give the C01 closed forms, out-of-range ones always reach it."),
+        design_ref="DESIGN.md 3/C20", note=ANOTE + " Engine L trusted base as for C01. Not decided: silence of every assertion for every valid program (undecidable in general).",
+        technique="dominator analysis on -O0 LLVM IR, differential abstract interpretation across assertion configurations, preprocessor scan, polynomial IR evaluation",
+    ),
 }
 
 NA_REASONS = {
